@@ -1,15 +1,154 @@
 /-
 C16 — Generators denote fixed lazy streams.
 Property theorems only; helper lemmas live in XrayProofs/Gen.lean.
+
+The model (`XrayModel/Gen.lean`) is a step machine: one `step` of an iterator is one pull of one source.
+`outs L n it` are the elements yielded by the first `n` steps — the growing finite approximations of
+the stream `it` denotes (`outs_mono`), so an equation that holds for every `n` is an equation between
+streams, finite or infinite.  Because it is indexed by the number of *steps*, the same equation says
+how far the source has been consumed: an adaptor whose `n`-step output is a function of its source's
+`n`-step output has pulled nothing beyond it (laziness).  `Den L it xs`: the iterator yields exactly
+`xs` and then ends.  Elements are items (a value, an error value, a violation); functions are
+arbitrary, so every statement covers erroring callbacks.
+`Permits.covers p k`: the search permits `p` suffice for `k` elements (always, when no limit is set).
 -/
 import XrayProofs.Gen
 namespace XrayModel.C16
 open XrayModel.Gen
 
-/-- consuming a generator value creates the same iterator every time: generator values hold no cursor
-(`_iter` takes `&self`), so two consumptions under the same limit yield the same result -/
-theorem reiterable (L : Option Nat) (fuel : Nat) (g : G) :
-    toArray L fuel g = toArray L fuel g ∧ g.iter L = .budget (g.start L) (Permits.ofLimit L) :=
-  ⟨rfl, rfl⟩
+/-- the approximations grow: a generator denotes one fixed stream -/
+theorem outs_mono (L : Option Nat) (n : Nat) (it : It) :
+    ∃ more, outs L (n + 1) it = outs L n it ++ more := by
+  refine ⟨_, outs_add L n 1 it⟩
+
+/-- `map` -/
+theorem iter_den_map (L : Option Nat) (f : F) (n : Nat) (g : G) :
+    outs L n ((G.map g f).start L) = (outs L n (g.start L)).map (mapItem f) := by
+  rw [G.start]; exact outs_map L f n _
+
+/-- `filter` (rejected elements are search work: a permit each) -/
+theorem iter_den_filter (L : Option Nat) (p : P) (n : Nat) (g : G)
+    (hc : (Permits.ofLimit L).covers (outs L n (g.start L)).length) :
+    outs L n ((G.filter g p).start L) = (outs L n (g.start L)).filterMap (filt p) := by
+  rw [G.start]; exact outs_filter L p n _ _ hc
+
+/-- on values with a total boolean predicate this is `List.filter` -/
+theorem filterMap_filt_vals (q : V → Bool) (vs : List V) :
+    (vs.map Item.val).filterMap (filt (fun | .val v => if q v then .t else .f | .err => .err | .viol => .viol)) =
+      (vs.filter q).map Item.val := by
+  induction vs with
+  | nil => rfl
+  | cons v vs ih =>
+    simp only [List.map_cons, List.filterMap_cons, filt, List.filter_cons]
+    cases q v <;> simp [ih]
+
+/-- `take_while` -/
+theorem iter_den_takeWhile (L : Option Nat) (p : P) (n : Nat) (g : G) :
+    outs L n ((G.takeWhile g p).start L) = twItems p (outs L n (g.start L)) := by
+  rw [G.start]; exact outs_takeWhile L p n _
+
+/-- `skip_until` -/
+theorem iter_den_skipUntil (L : Option Nat) (p : P) (n : Nat) (g : G)
+    (hc : (Permits.ofLimit L).covers (outs L n (g.start L)).length) :
+    outs L n ((G.skipUntil g p).start L) = suItems p (outs L n (g.start L)) := by
+  rw [G.start]; exact outs_skipUntil L p n _ _ hc
+
+/-- `aggregate`: the initial state, then the scan; it is one step behind its source, never ahead -/
+theorem iter_den_aggregate (L : Option Nat) (f : F2) (init : Item) (n : Nat) (g : G) :
+    outs L (n + 1) ((G.aggregate g init f).start L) = init :: scanItems f init (outs L n (g.start L)) := by
+  rw [G.start]; exact outs_aggregate_first L f n _ init
+
+/-- the slice `[a, b)` of a generator: drop `a`, then `b - a` elements (not `b`: repaired in 099a822) -/
+theorem slice_iter (L : Option Nat) (n : Nat) (g : G) (a b : Nat)
+    (hc : (Permits.ofLimit L).covers a) (hv : noViol (outs L n (g.start L))) :
+    outs L n ((G.slice g a (some b)).start L) = ((outs L n (g.start L)).drop a).take (b - a) := by
+  rw [outs_start_slice L n g a (some b) hc hv]; rfl
+
+/-- `skip(a)`: an open slice -/
+theorem skip_iter (L : Option Nat) (n : Nat) (g : G) (a : Nat)
+    (hc : (Permits.ofLimit L).covers a) (hv : noViol (outs L n (g.start L))) :
+    outs L n ((G.slice g a none).start L) = (outs L n (g.start L)).drop a := by
+  rw [outs_start_slice L n g a none hc hv]; rfl
+
+/-- merging nested slices (`XGenerator::slice`, :492-515) does not change what is denoted: slicing a
+slice through `mkSlice` gives the stream of the slice of the slice -/
+theorem slice_merge_den (L : Option Nat) (n : Nat) (g : G) (a c : Nat) (b d : Option Nat)
+    (hc : (Permits.ofLimit L).covers (a + c)) (hv : noViol (outs L n (g.start L))) :
+    outs L n ((G.mkSlice (.slice g a b) c d).start L) =
+      takeOpt (d.map (· - c)) ((takeOpt (b.map (· - a)) ((outs L n (g.start L)).drop a)).drop c) := by
+  have ha : (Permits.ofLimit L).covers a := covers_mono hc (by omega)
+  by_cases h : c = 0 ∧ d = none
+  · obtain ⟨rfl, rfl⟩ := h
+    have : G.mkSlice (.slice g a b) 0 none = .slice g a b := by simp [G.mkSlice]
+    rw [this, outs_start_slice L n g a b ha hv]
+    simp [takeOpt]
+  · rw [mkSlice_slice g a b c d h, outs_start_slice L n g (a + c) _ hc hv, slice_slice_list]
+
+/-- `skip(2).take(3)` of the counter is `2, 3, 4` (it was `2 … 6`), `take(3).skip(5)` is empty -/
+example : outs none 9 ((((G.fromCount none).skip 2).take 3).start none) =
+    [.val (.int 2), .val (.int 3), .val (.int 4)] := by rfl
+example : outs none 9 ((((G.fromCount none).take 3).skip 5).start none) = [] := by rfl
+
+/-- a chain is lazy in its parts: as long as the current part has not ended, the chain is that part
+(nothing of the later parts is started; an infinite part is no obstacle — repaired in 5b71e05) -/
+theorem chain_lazy (L : Option Nat) (rest : List G) (k : Nat) (cur c : It) (h : after L k cur = some c) :
+    outs L k (.chain cur rest) = outs L k cur ∧ after L k (.chain cur rest) = some (.chain c rest) := by
+  have := chain_running L rest k cur c h
+  exact ⟨this.2, this.1⟩
+
+/-- `add` (`XGenerator::chain`, :470-490) splices the parts of its operands; when the parts denote
+finite lists the chain denotes their concatenation -/
+theorem chain_den (L : Option Nat) (a b : G) (xs ys : List Item)
+    (ha : DenParts L a.parts xs) (hb : DenParts L b.parts ys) :
+    Den L ((a.mkChain b).start L) (xs ++ ys) := by
+  rw [mkChain_parts, G.start]
+  simpa using den_chain_parts L _ _ _ _ (den_arr_nil L) (denParts_append ha hb)
+
+example : DenParts none (G.fromArr [.int 1]).parts [.val (.int 1)] := by
+  have h : Den none ((G.fromArr [.int 1]).start none) [.val (.int 1)] := by
+    rw [G.start]; exact den_arr none [.int 1]
+  simpa [G.parts] using DenParts.cons h DenParts.nil
+
+/-- finite denotations compose (array source, map, filter), and `to_array` returns exactly the
+denoted list when the consumer's budget covers it -/
+theorem den_fromArr (L : Option Nat) (vs : List V) : Den L ((G.fromArr vs).start L) (vs.map Item.val) := by
+  rw [G.start]; exact den_arr L vs
+
+theorem den_map_g (L : Option Nat) (g : G) (f : F) (xs : List Item) (h : Den L (g.start L) xs) :
+    Den L ((G.map g f).start L) (xs.map (mapItem f)) := by
+  rw [G.start]; exact den_map f h
+
+theorem den_filter_g (L : Option Nat) (g : G) (p : P) (xs : List Item) (h : Den L (g.start L) xs)
+    (hc : (Permits.ofLimit L).covers xs.length) :
+    Den L ((G.filter g p).start L) (xs.filterMap (filt p)) := by
+  rw [G.start]; exact den_filter p _ h hc
+
+theorem toArray_den (L : Option Nat) (g : G) (vs : List V) (h : Den L (g.start L) (vs.map Item.val))
+    (hc : (Permits.ofLimit L).covers vs.length) :
+    ∃ fuel, toArray L fuel g = .ok vs := by
+  have hb : Den L (g.iter L) (vs.map Item.val) := den_budget _ h (by simpa using hc)
+  obtain ⟨n, h1, h2⟩ := hb
+  exact ⟨n, by simpa [toArray] using drain_den L n _ vs [] h1 h2⟩
+
+/-- a generator value holds no cursor: every consumption starts the same iterator, so consuming the
+same value again gives the same result (the tie consumes every pipeline twice) -/
+theorem reiterable (L : Option Nat) (fuel : Nat) (g : G) (r : Res (List V))
+    (h : toArray L fuel g = r) : toArray L fuel g = r ∧ g.iter L = .budget (g.start L) (Permits.ofLimit L) :=
+  ⟨h, rfl⟩
+
+/-- laziness, state form: after `n` steps `map` holds its source after exactly `n` steps -/
+theorem lazy_prefix_map (L : Option Nat) (f : F) (n : Nat) (g : G) :
+    after L n ((G.map g f).start L) = (after L n (g.start L)).map (fun s => .map s f) := by
+  rw [G.start]; exact after_map L f n _
+
+/-- … and so does `filter` -/
+theorem lazy_prefix_filter (L : Option Nat) (p : P) (n : Nat) (g : G)
+    (hc : (Permits.ofLimit L).covers (outs L n (g.start L)).length) :
+    ∃ perm', after L n ((G.filter g p).start L) = (after L n (g.start L)).map (fun s => .filter s p perm') := by
+  rw [G.start]; exact after_filter L p n _ _ hc
+
+/-- no adaptor runs ahead of the steps it is given: `n` steps yield at most `n` elements -/
+theorem outs_length (L : Option Nat) (n : Nat) (it : It) : (outs L n it).length ≤ n :=
+  outs_length_le L n it
 
 end XrayModel.C16
